@@ -176,7 +176,64 @@ def run(ctx):
     if not hit:
         r.ok("C16.sinks", "engine-unreachable", "%d functions reachable from rule_list.fix/check_rules, none contains a sink" % len(ereach))
     _read_error(r, p)
+    _parse_error_swallow(r, p)
     return r
+
+
+def _parse_error_swallow(r, p):
+    """"Write-back happens only after the file parsed" rests on apply_rules seeing the ClassifyError.  The model
+    constructor swallows it in one documented case, --force_fix.  The handler is evaluated for every truth assignment of
+    the flags it tests: whenever force_fix is false the error must leave the constructor."""
+    import itertools
+
+    pf = p.function("vsg.vhdlFile.vhdlFile:vhdlFile._processFile")
+    handlers = [h for t in walk_function(pf.node) if isinstance(t, ast.Try) for h in t.handlers if h.type is not None and "ClassifyError" in norm(h.type)]
+    if not handlers:
+        r.ok("C16.order", pf.key + ":parse-error", "the constructor never catches ClassifyError: every parse error reaches apply_rules")
+        return
+    for h in handlers:
+        atoms = sorted({norm(x) for t in ast.walk(h) if isinstance(t, (ast.If, ast.IfExp, ast.While)) for x in ast.walk(t.test) if isinstance(x, ast.Attribute) and isinstance(x.ctx, ast.Load) and not isinstance(getattr(x, "_parent", None), ast.Attribute)})
+        ff = [a for a in atoms if a.endswith("force_fix")]
+        kk = pf.key + ":parse-error"
+        if not ff or len(atoms) > 6:
+            r.fail("C16.order", kk, "the constructor swallows ClassifyError under a condition that does not mention force_fix (%s)" % atoms, pf.loc(h))
+            continue
+
+        def ev(e, env):
+            if isinstance(e, ast.BoolOp):
+                vals = [ev(v, env) for v in e.values]
+                return all(vals) if isinstance(e.op, ast.And) else any(vals)
+            if isinstance(e, ast.UnaryOp) and isinstance(e.op, ast.Not):
+                return not ev(e.operand, env)
+            if norm(e) in env:
+                return env[norm(e)]
+            raise ValueError(norm(e))
+
+        def raises(stmts, env):
+            for st in stmts:
+                if isinstance(st, ast.Raise):
+                    return True
+                if isinstance(st, ast.If):
+                    if raises(st.body if ev(st.test, env) else st.orelse, env):
+                        return True
+                elif isinstance(st, (ast.Return, ast.Break, ast.Continue)):
+                    return False
+            return False
+
+        bad = None
+        try:
+            for vals in itertools.product([False, True], repeat=len(atoms)):
+                env = dict(zip(atoms, vals))
+                if not env[ff[0]] and not raises(h.body, env):
+                    bad = env
+                    break
+        except ValueError as e:
+            r.fail("C16.order", kk, "the condition under which a parse error is swallowed (`%s`) is not a boolean combination of flags" % e, pf.loc(h))
+            continue
+        if bad is None:
+            r.ok("C16.order", kk, "a parse error leaves the constructor whenever --force_fix is not given (%d flag combinations evaluated)" % (2 ** len(atoms)))
+        else:
+            r.fail("C16.order", kk, "a parse error is swallowed although --force_fix is not given (%s): apply_rules goes on to fix and write back a file it could not parse" % ", ".join("%s=%s" % (k.split(".")[-1], v) for k, v in bad.items()), pf.loc(h))
 
 
 def _read_error(r, p):
@@ -462,6 +519,10 @@ from ..selftest import Variant  # noqa: E402
 
 _AR = "vsg/apply_rules.py"
 VARIANTS = [
+    Variant("C16", "parse error swallowed whenever --fix is given", "fire",
+            [("vsg/vhdlFile/vhdlFile.py", "            if self.commandLineArguments.force_fix and self.commandLineArguments.fix:\n                print(e.message)\n                print(\"\")\n                print(\"INFO:  The --force_fix option was enabled.\")\n                print(\"       Proceeding to analyze and apply fixes.\")\n                print(\"\")\n            else:\n                raise e", "            if not self.commandLineArguments.force_fix and not self.commandLineArguments.fix:\n                raise e\n            print(e.message)")], rule="C16.order", key="parse-error"),
+    Variant("C16", "twin: force_fix handler written as a guard clause", "silent",
+            [("vsg/vhdlFile/vhdlFile.py", "            if self.commandLineArguments.force_fix and self.commandLineArguments.fix:\n                print(e.message)\n                print(\"\")\n                print(\"INFO:  The --force_fix option was enabled.\")\n                print(\"       Proceeding to analyze and apply fixes.\")\n                print(\"\")\n            else:\n                raise e", "            if not self.commandLineArguments.force_fix or not self.commandLineArguments.fix:\n                raise e\n            print(e.message)")]),
     Variant("C16", "reader returns what it read so far together with the error", "fire",
             [("vsg/vhdlFile/utils.py", "    except OSError as e:\n        return [], e\n\n\ndef is_token_at_end_of_line", "    except OSError as e:\n        return lPartial, e\n\n\ndef is_token_at_end_of_line"),
              ("vsg/vhdlFile/utils.py", "    if sFileName == \"stdin\":\n        return _read(sys.stdin), None", "    lPartial = []\n    if sFileName == \"stdin\":\n        return _read(sys.stdin), None")], rule="C16.read"),
